@@ -38,3 +38,29 @@ package zerolog
 //@   loop 1:
 //@     invariant 0 <= i && len(dst) == len(dst0) + 30 + i
 
+
+// ---------------------------------------------------------------------------
+// C16: in the JSON build the console writer parses the bytes it was given.
+//@ func decodeIfBinaryToBytes(in) res
+//@   props C16
+//@   arith int
+//@   flag tags !binary_log
+//@   ensures same(res, in)
+
+// C16: a successful Write reports the full input length, renders the parts
+// of PartsOrder one by one in that order, then the remaining fields, once.
+//@ track ConsoleWriter.writePart, ConsoleWriter.writeFields
+//@ pool consoleBufPool *bytes.Buffer
+//@ func (ConsoleWriter).Write(w, p) n, err
+//@   props C16
+//@   arith int
+//@   flag tags !binary_log
+//@   ensures err == nil ==> n == len(p)
+//@   ensures err == nil ==> ncalls(ConsoleWriter.writeFields) == old(ncalls(ConsoleWriter.writeFields)) + 1
+//@   ensures err == nil && old(w.PartsOrder) != nil ==> ncalls(ConsoleWriter.writePart) == old(ncalls(ConsoleWriter.writePart)) + len(old(w.PartsOrder))
+//@   loop 1:
+//@     invariant 0 <= rangeindex + 1 && rangeindex + 1 <= rangelen
+//@     invariant buf != nil
+//@     invariant old(w.PartsOrder) != nil ==> rangelen == len(old(w.PartsOrder))
+//@     invariant ncalls(ConsoleWriter.writePart) == old(ncalls(ConsoleWriter.writePart)) + rangeindex + 1
+//@     invariant ncalls(ConsoleWriter.writeFields) == old(ncalls(ConsoleWriter.writeFields))
